@@ -13,6 +13,8 @@
 import YalafiVerif.Proofs.Scanner
 import YalafiVerif.Proofs.Utils
 import YalafiVerif.Proofs.Lines
+import YalafiVerif.Proofs.PlainVerb
+import YalafiVerif.Generated.Init
 namespace Yalafi
 
 theorem C02_scan_slice (T : Tables) (h : T.WFScan) (src : Str) :
@@ -30,5 +32,29 @@ theorem C02_removeLines_nonblank (ts out : List Tok)
     (hr : removeLines ts = some out) :
     nonBlankPairs (getTxtPos out) = nonBlankPairs (getTxtPos ts) :=
   removeLines_nonblank ts out hc hr
+
+/-- **verbatim material is copied literally**, end to end on the filter model: for documents of
+    inert text and complete `\\verb d … d` (any delimiter that is no letter/`@`, any content without
+    the delimiter and without line break — `$`, `{`, `%`, `\\` included; no line of white space and
+    blank-content `\\verb`s only), the output is the source with every `\\verb d s d` replaced by
+    `s`, and every output character — text and verbatim content alike — stands in the source at
+    exactly the position it is mapped to; no unknowns, no diagnostics -/
+theorem C02_verb_literal (T : PTables) (o : Options) (fs : FS) (thresh : Nat) (segs : List VSeg)
+    (fuel : Nat) (st1 : PState)
+    (hdefs : o.defs = []) (hextr : o.extr = []) (hrepl : o.hasRepl = false) (hunkn : o.unkn = false)
+    (hinit : initParser T fuel o (initialState T o false fs) = .ok ((), st1))
+    (hok : vsegsOk T st1 segs = true) (hlines : vlinesOK segs = true) (hwf : verbOnly segs = true)
+    (hf : (renderV segs).length + 2 ≤ fuel) :
+    ∃ r, tex2txt T fuel (renderV segs) o false thresh fs = .ok r ∧
+      r.txt = contentText segs ∧ r.txt = (outW 0 segs).map (·.1) ∧ r.pos = (outW 0 segs).map (·.2 + 1) ∧
+      (∀ cp ∈ outW 0 segs, (renderV segs)[cp.2]? = some cp.1) ∧
+      r.unknowns = [] ∧ r.diags = st1.diags :=
+  tex2txt_verb_wellformed T o fs thresh segs fuel st1 hdefs hextr hrepl hunkn hinit hwf hok hlines hf
+
+/-- a concrete document satisfies the premises on the tables translated from the current /repo -/
+theorem C02_verb_example_current :
+    vsegsOk Generated.theTables Generated.stDefault
+      [.txt "Use ".toList, .verb '|' "a$b{%\\x".toList, .txt " and ".toList, .verb '+' "x|y".toList, .txt " here.".toList] = true := by
+  decide +kernel
 
 end Yalafi
